@@ -8,10 +8,13 @@ Unicode scalar values = Rust `str`: empty, `true`/`false`, quotes, backslashes, 
 every body that satisfies `BodyWF`.
 -/
 import SwimVerif.Proofs.Envelope
+import SwimVerif.Proofs.Routing
 
 set_option linter.unusedSimpArgs false
-namespace SwimVerif.Envelope
-open SwimVerif.Generated.Env
+namespace SwimVerif.C11
+
+section Pure
+open SwimVerif.Envelope SwimVerif.Generated.Env
 
 /-- **Round trip, general form**: for every message, whatever its node, lane and body, the reader returns the same
 kind, node and lane, and the body with its leading spaces and tabs removed. -/
@@ -155,4 +158,214 @@ example : encode ⟨.link, "\u0001\"".toList, "x".toList, []⟩ = "@link(node:\"
 example : isIdentifier "true".toList = false ∧ isIdentifier "".toList = false ∧ isIdentifier "ℵ-1".toList = true := by
   decide
 
-end SwimVerif.Envelope
+end Pure
+
+/-!
+## Part 2 (routing).  Quantifier: every sequence of operations on one socket — agents and downlinks attaching,
+writing, detaching, the resolver's answers changing, arbitrary text frames arriving (`List Op`) — and every frame.
+-/
+section Routing
+open SwimVerif.Envelope SwimVerif.Routing
+open SwimVerif.Envelope (peel Msg Kind Str encode BodyWF hasBody)
+
+/-- States reachable by any operation sequence from a fresh socket task. -/
+def reach (ops : List Routing.Op) : St := run init ops
+
+def isDelivery : Ev → Bool
+  | .toDl _ _ _ _ _ => true
+  | .toAgent _ _ => true
+  | _ => false
+
+/-- **T1 `route_exact` (notifications)**: a `linked`/`synced`/`unlinked`/`event` envelope that decodes to
+`(node, lane)` produces deliveries only, each to a downlink attached to exactly that node and lane whose far end is
+open, carrying the decoded kind, node and lane; and every such downlink gets it. -/
+theorem C11_route_exact (ops : List Routing.Op) (frame : Str) (k : Kind) (n l b : Str)
+    (hp : peel frame = .env k n l b) (hk : isRequest k = false) :
+    (∀ e ∈ (stepInput (reach ops) frame).2, ∃ id, e = .toDl id k n l (deliveredBody k b) ∧
+        dlAlive (reach ops) id = true ∧ ∃ d ∈ (reach ops).dls, d.id = id ∧ d.node = n ∧ d.lane = l) ∧
+    ((reach ops).running = true → ∀ d ∈ (reach ops).dls, d.alive = true → d.node = n → d.lane = l →
+        Ev.toDl d.id k n l (deliveredBody k b) ∈ (stepInput (reach ops) frame).2) := by
+  have hinv : Inv (reach ops) := inv_run init inv_init ops
+  generalize reach ops = st at *
+  simp only [stepInput, hp, hk, Bool.false_eq_true, if_false, routeResponse]
+  cases hs : subsGet st.subs n l with
+  | none =>
+    refine ⟨by simp, ?_⟩
+    intro hr d hd ha hn hl
+    obtain ⟨ids, hg, _⟩ := hinv.compl hr d hd ha
+    rw [hn, hl, hs] at hg; cases hg
+  | some ids =>
+    simp only [List.mem_map, List.mem_filter]
+    constructor
+    · rintro e ⟨id, ⟨hin, hal⟩, rfl⟩
+      exact ⟨id, rfl, hal, hinv.iso n l ids id hs hin⟩
+    · intro hr d hd ha hn hl
+      obtain ⟨ids0, hg, hin⟩ := hinv.compl hr d hd ha
+      rw [hn, hl, hs] at hg
+      cases hg
+      exact ⟨d.id, ⟨hin, dlAlive_of_mem st d hd ha⟩, rfl⟩
+
+/-- **T1 `route_exact` (requests)**: a `link`/`sync`/`unlink`/`command` envelope for `node` is handed to at most one
+agent channel, one that was opened for exactly that node, as the decoded request; never to a downlink. -/
+theorem C11_route_exact_agents (ops : List Routing.Op) (frame : Str) (k : Kind) (n l b : Str)
+    (hp : peel frame = .env k n l b) (hk : isRequest k = true) :
+    (∀ e ∈ (stepInput (reach ops) frame).2, ∀ i m, e = Ev.toAgent i m →
+        m = ⟨k, n, l, requestBody k b⟩ ∧ ∃ a, (stepInput (reach ops) frame).1.agents[i]? = some a ∧ a.node = n) ∧
+    (∀ e ∈ (stepInput (reach ops) frame).2, ∀ id k' n' l' b', e ≠ Ev.toDl id k' n' l' b') ∧
+    ((stepInput (reach ops) frame).2.filter (fun e => isDelivery e)).length ≤ 1 := by
+  have hinv : Inv (reach ops) := inv_run init inv_init ops
+  generalize reach ops = st at *
+  simp only [stepInput, hp, hk, if_true, routeRequest]
+  cases hr : kGet st.routes n with
+  | none =>
+    by_cases hres : st.resolvable.contains n = true
+    · simp only [hres, if_true]
+      refine ⟨?_, by simp, by simp [isDelivery]⟩
+      intro e he i m hm
+      subst hm
+      simp at he
+      obtain ⟨rfl, rfl⟩ := he
+      exact ⟨rfl, ⟨n, true⟩, getElem?_append_new _ _, rfl⟩
+    · simp only [hres]
+      by_cases hc : k = .command <;> simp [hc, isDelivery]
+  | some i =>
+    by_cases ha : agAlive st i = true
+    · simp only [ha, if_true]
+      refine ⟨?_, by simp, by simp [isDelivery]⟩
+      intro e he i' m hm
+      subst hm
+      simp at he
+      obtain ⟨h1, h2⟩ := he
+      rw [h1, h2]
+      exact ⟨rfl, hinv.routes n i hr⟩
+    · simp only [ha]
+      by_cases hres : st.resolvable.contains n = true
+      · simp only [hres, if_true]
+        refine ⟨?_, by simp, by simp [isDelivery]⟩
+        intro e he i' m hm
+        subst hm
+        simp at he
+        obtain ⟨rfl, rfl⟩ := he
+        exact ⟨rfl, ⟨n, true⟩, getElem?_append_new _ _, rfl⟩
+      · simp only [hres]
+        by_cases hc : k = .command <;> simp [hc, isDelivery]
+
+/-- **`invalid_not_delivered`**: a frame that is not a request or notification envelope (rejected, crashing the
+reader, or `auth`/`deauth`) is handed to nobody. -/
+theorem C11_invalid_not_delivered (ops : List Routing.Op) (frame : Str)
+    (hp : ∀ k n l b, peel frame ≠ .env k n l b) :
+    ∀ e ∈ (stepInput (reach ops) frame).2, isDelivery e = false := by
+  generalize reach ops = st
+  unfold stepInput
+  cases h : peel frame with
+  | env k n l b => exact absurd h (hp k n l b)
+  | unsup => simp
+  | auth => simp
+  | deauth => simp
+  | err =>
+    simp only [stopAll, endEvents]
+    intro e he
+    simp only [List.mem_append, List.mem_filterMap, List.mem_cons, List.mem_nil_iff, or_false] at he
+    rcases he with (⟨p, _, hp'⟩ | ⟨d, _, hd'⟩) | rfl | rfl
+    · split at hp' <;> simp at hp'; subst hp'; rfl
+    · split at hd' <;> simp at hd'; subst hd'; rfl
+    · rfl
+    · rfl
+  | panic c =>
+    simp only [stopAll, endEvents]
+    intro e he
+    simp only [List.mem_append, List.mem_filterMap, List.mem_cons, List.mem_nil_iff, or_false] at he
+    rcases he with (⟨p, _, hp'⟩ | ⟨d, _, hd'⟩) | rfl | rfl
+    · split at hp' <;> simp at hp'; subst hp'; rfl
+    · split at hd' <;> simp at hd'; subst hd'; rfl
+    · rfl
+    · rfl
+
+/-- Only an incoming frame causes a delivery: attaching, detaching, sending, stopping never do. -/
+theorem C11_only_input_delivers (st : St) (op : Routing.Op) (h : ∀ f, op ≠ .input f) :
+    ∀ e ∈ (step st op).2, isDelivery e = false := by
+  have hstop : ∀ extra : List Ev, (∀ e ∈ extra, isDelivery e = false) →
+      ∀ e ∈ (stopAll st extra).2, isDelivery e = false := by
+    intro extra hx e he
+    simp only [stopAll, endEvents, List.mem_append, List.mem_filterMap] at he
+    rcases he with (⟨p, _, hp'⟩ | ⟨d, _, hd'⟩) | he
+    · split at hp' <;> simp at hp'; subst hp'; rfl
+    · split at hd' <;> simp at hd'; subst hd'; rfl
+    · exact hx e he
+  cases op with
+  | input f => exact absurd rfl (h f)
+  | agents ns => simp [step]
+  | attach id n l => simp only [step]; split <;> simp
+  | send s m => simp only [step]; split <;> simp [isDelivery]
+  | burst srcs =>
+    simp only [step]
+    split
+    · clear h
+      generalize st.counter = k
+      induction srcs generalizing k with
+      | nil => simp [burstEvents]
+      | cons s rest ih =>
+        intro e he
+        simp only [burstEvents, List.mem_append] at he
+        rcases he with he | he
+        · split at he <;> simp at he; subst he; rfl
+        · exact ih (k + 1) e he
+    · simp
+  | detach s => cases s <;> simp [step]
+  | stop =>
+    simp only [step]
+    split
+    · exact hstop _ (by simp [isDelivery])
+    · simp
+
+/-- Full statement "content unchanged" for the body (false of the current code: `C11_body_unchanged_fails`). -/
+def C11_body_unchanged : Prop := ∀ (k : Kind) (b : Str), isRequest k = false → deliveredBody k b = expectedBody k b
+
+/-- Witness FC11-2: `interpret_envelope` keeps the body of an `unlinked` envelope only when it is empty
+(`if body.is_empty() { Some(*body) } else { None }`), so `@unlinked(node:n,lane:l)@laneNotFound` reaches the
+downlink as `Unlinked(None)`. -/
+theorem C11_body_unchanged_fails (hc : Generated.Env.unlinkedBodyDropped = true) : ¬ C11_body_unchanged := by
+  intro h
+  have := h .unlinked "@laneNotFound".toList rfl
+  simp [deliveredBody, expectedBody, hc] at this
+
+/-- What holds: every notification other than an `unlinked` with a non-empty body arrives with its body. -/
+theorem C11_body_unchanged_partial (k : Kind) (b : Str) (hk : isRequest k = false) (h : k ≠ .unlinked ∨ b = []) :
+    deliveredBody k b = expectedBody k b := by
+  cases k <;> simp_all [deliveredBody, expectedBody, isRequest]
+  all_goals (split <;> simp_all)
+
+/-- **Writer → socket → reader → routing**: a well-formed notification written by the peer's `ReconEncoder` reaches
+exactly the open downlinks attached to its own node and lane. -/
+theorem C11_written_notification_routed (ops : List Routing.Op) (m : Msg) (hwf : BodyWF m) (hk : isRequest m.kind = false) :
+    (∀ e ∈ (stepInput (reach ops) (encode m)).2, ∃ id, e = .toDl id m.kind m.node m.lane
+          (deliveredBody m.kind (if hasBody m.kind then m.body else [])) ∧
+        ∃ d ∈ (reach ops).dls, d.id = id ∧ d.node = m.node ∧ d.lane = m.lane) ∧
+    ((reach ops).running = true → ∀ d ∈ (reach ops).dls, d.alive = true → d.node = m.node → d.lane = m.lane →
+        Ev.toDl d.id m.kind m.node m.lane (deliveredBody m.kind (if hasBody m.kind then m.body else []))
+          ∈ (stepInput (reach ops) (encode m)).2) := by
+  have hp := C11_read_write m hwf
+  have := C11_route_exact ops (encode m) m.kind m.node m.lane (if hasBody m.kind then m.body else []) hp hk
+  refine ⟨?_, this.2⟩
+  intro e he
+  obtain ⟨id, h1, _, h3⟩ := this.1 e he
+  exact ⟨id, h1, h3⟩
+
+/-! non-vacuity: two downlinks on the same node but different lanes, one detached; an agent resolved on demand -/
+
+example :
+    (step (reach [.agents ["/a".toList], .attach 0 "/a".toList "x".toList, .attach 1 "/a".toList "y".toList,
+                  .attach 2 "/a".toList "x".toList, .detach (.dl 2)])
+        (.input "@event(node:\"/a\",lane:x) 1".toList)).2 =
+      [.toDl 0 .event "/a".toList "x".toList (some "1".toList)] := by decide
+
+example :
+    (step (reach [.agents ["/a".toList]]) (.input "@command(node:\"/a\",lane:x) 1".toList)).2 =
+      [.find "/a".toList "x".toList (some 0), .toAgent 0 ⟨.command, "/a".toList, "x".toList, "1".toList⟩] := by decide
+
+example : (step (reach []) (.input "@link(node:\"/a\",lane:x)".toList)).2 =
+    [.find "/a".toList "x".toList none, .peer "@unlinked(node:\"/a\",lane:x)@nodeNotFound".toList] := by decide
+
+end Routing
+
+end SwimVerif.C11
